@@ -186,6 +186,40 @@ def run_groups(groups, tier, pid):
                       "solver_s": 0.0}
         for (f, item) in spec.get("functions", []):
             results[g]["functions"].append({"file": f, "item": item, "role": "harnessed (real code, compiled by cargo kani)"})
+    # bounded native enumerations (ordinary debug build of the real crate, run by cargo kani playback)
+    for (g, spec) in groups:
+        for h in spec["harnesses"]:
+            if not (isinstance(h, dict) and h.get("native")):
+                continue
+            if h.get("tier") == "thorough" and tier != "thorough":
+                continue
+            r = results[g]
+            cwd = os.path.join(REPO, CRATE_DIR[spec["crate"]])
+            cmd = ["cargo", "kani", "playback", "-Z", "concrete-playback", "--", h["name"], "--nocapture"]
+            rc, out, secs, to = _run(cmd, cwd, h.get("timeout", 1800))
+            r["checker_cmd"] = (r["checker_cmd"] + " ;; " if r["checker_cmd"] else "") + "(cd %s && %s)" % (cwd, " ".join(cmd))
+            r["wall_s"] += secs
+            ob = {"name": "kani:%s:%s" % (g, h["name"]), "backend": "native enumeration of the real function (cargo kani playback build, no solver)",
+                  "complete": False, "bound": h.get("bound"), "function": h.get("about", ""), "contract": h.get("contract", "")}
+            mcalls = re.search(r"(\d+) calls", out)
+            if mcalls:
+                ob["cases_enumerated"] = int(mcalls.group(1))
+            if re.search(r"test \S*%s \.\.\. ok" % re.escape(h["name"]), out):
+                ob["verdict"] = "discharged"
+            elif re.search(r"test \S*%s \.\.\. FAILED" % re.escape(h["name"]), out):
+                ob["verdict"] = "failed"
+                msg = re.search(r"panicked at [^\n]*\n([^\n]*)", out)
+                r["failures"].append({"item": h["name"], "file": spec["module_file"], "message": "native enumeration failed",
+                                      "sig": "native enumeration %s: %s" % (h["name"], (msg.group(1) if msg else "test failed")[:400]),
+                                      "rendered": out[-3000:], "counterexample": (msg.group(1) if msg else None), "replayed": True,
+                                      "replay_result": "the failing case was executed on the real crate (native build): it panics / violates the assertion"})
+                r["status"] = "failed"
+            else:
+                ob["verdict"] = "inconclusive"
+                r["reason"] = (r["reason"] + "; " if r["reason"] else "") + "%s: native test could not be built or run (%s)" % (h["name"], " ".join(re.findall(r"error(?:\[E\d+\])?: [^\n]*", out)[:2]) or "timeout=%s" % to)
+                if r["status"] == "ok":
+                    r["status"] = "inconclusive"
+            r["obligations"].append(ob)
     for (crate, flags, unwindset), members in batches.items():
         cwd = os.path.join(REPO, CRATE_DIR[crate])
         names = []
@@ -193,6 +227,8 @@ def run_groups(groups, tier, pid):
         for (g, spec) in members:
             for h in spec["harnesses"]:
                 if isinstance(h, dict) and h.get("tier") == "thorough" and tier != "thorough":
+                    continue
+                if isinstance(h, dict) and h.get("native"):
                     continue
                 names.append(spec["module"] + "::" + hname(h))
             tmo = max(tmo, spec.get("harness_timeout", 600))
@@ -210,6 +246,8 @@ def run_groups(groups, tier, pid):
             reasons = []
             for h in spec["harnesses"]:
                 if isinstance(h, dict) and h.get("tier") == "thorough" and tier != "thorough":
+                    continue
+                if isinstance(h, dict) and h.get("native"):
                     continue
                 short = hname(h)
                 full = spec["module"] + "::" + short
@@ -243,7 +281,7 @@ def run_groups(groups, tier, pid):
             if r["failures"]:
                 r["status"] = "failed"
             if reasons:
-                r["reason"] = "; ".join(reasons)
+                r["reason"] = (r["reason"] + "; " if r["reason"] else "") + "; ".join(reasons)
                 if not r["failures"]:
                     r["status"] = "inconclusive"
     return [results[g] for (g, _) in groups]
